@@ -50,3 +50,81 @@ Example C13_example :
   results (run false true (fun _ => false) ex13 (repeat EScan 3)) = [1; 0] /\
   loop_head ex13 (run true true (fun _ => false) ex13 (repeat EScan 3)) = ExitNormal.
 Proof. vm_compute. repeat split. Qed.
+
+(* ------------------------------------------------------------------------------------------------------------
+   LIVE runs: several streamed runs of ONE prepared session that exist at the same time and are advanced by the consumer in
+   an arbitrary interleaving (Model/SessionLive.v; `lexec true reset` is the code: Engine.compute gives every run its own deep
+   copy of the plan, incl. the step_is_done flags).  Spec/SessionLiveSpec.v: `sexec` = ONE run executed alone, `solo i n ops` =
+   the part of the interleaved history that concerns run i, `sevents` = the events between its open and its close. *)
+Require Import MV.Model.Session MV.Model.SessionLive MV.Spec.SessionLiveSpec MV.Proofs.SessionLiveP.
+
+(* for EVERY history -- any number of runs, any interleaving of their loop iterations and worker completions, opens and closes
+   anywhere, batch runs in between -- from ANY session state, and every run number i: run i is exactly the run the alone
+   machine produces from its own part of the history *)
+Theorem C13_live_interleaving_invariant : forall reset ops s i,
+  nth_error (v_runs (lexec true reset s ops)) i =
+  sexec reset (v_plan s) (v_api s) (v_flags s) (nth_error (v_runs s) i) (solo i (List.length (v_runs s)) ops).
+Proof. exact live_interleaving_invariant_l. Qed.
+Print Assumptions C13_live_interleaving_invariant.
+
+(* two interleavings that agree on what concerns run i leave run i in the same state (what the other runs do, and when, is
+   invisible to it) *)
+Theorem C13_live_interleavings_agree : forall reset p a0 ops1 ops2 i, solo i 0 ops1 = solo i 0 ops2 ->
+  nth_error (v_runs (lexec true reset (lprepare p a0) ops1)) i = nth_error (v_runs (lexec true reset (lprepare p a0) ops2)) i.
+Proof. exact live_interleavings_agree_l. Qed.
+Print Assumptions C13_live_interleavings_agree.
+
+(* hence every live run is the orchestrator run of Model/Orch.v on its own events, and a streamed one has yielded exactly what
+   the batch loop collects on the same events, in the same loop state (exit / raise / looping): C13_stream_equals_batch holds
+   for each of the interleaved streams *)
+Theorem C13_live_runs_equal_batch : forall reset p a0 ops i r,
+  nth_error (v_runs (lexec true reset (lprepare p a0) ops)) i = Some r ->
+  let es := sevents false (solo i 0 ops) in
+  l_st r = run (l_stream r) (l_inline r) (memf (l_fails r)) p es /\
+  (l_stream r = true ->
+     yielded (l_st r) = results (run false (l_inline r) (memf (l_fails r)) p es) /\
+     loop_head p (l_st r) = loop_head p (run false (l_inline r) (memf (l_fails r)) p es)).
+Proof. exact live_runs_equal_batch_l. Qed.
+Print Assumptions C13_live_runs_equal_batch.
+
+(* the session's own step_is_done flags are never written by a live run *)
+Theorem C13_live_master_flags : forall reset ops s, v_flags (lexec true reset s ops) = v_flags s.
+Proof. exact live_master_flags_l. Qed.
+Print Assumptions C13_live_master_flags.
+
+(* the statement depends on the private copies.  Shared step objects whose flags are reset when a run is opened (a shallow
+   plan copy + `step.step_is_done = False`; passes every strictly sequential history): SYNC, chain of three requested steps,
+   2 items of stream 1, stream 2 opened and 1 item taken, stream 1 resumed -- for EVERY number n of further loop iterations
+   stream 1 is still looping and has yielded 2 of its 3 items; with private copies one iteration ends it with all three *)
+Theorem C13_live_shared_reset_refuted : forall n,
+  (exists r, nth_error (v_runs (lexec false true (lprepare chain3 None) (ops_overlap ++ repeat (LStep 0 EScan) n))) 0 = Some r /\
+             run_status chain3 r = Looping /\ run_items r = [0; 1]) /\
+  (exists r, nth_error (v_runs (lexec true true (lprepare chain3 None) (ops_overlap ++ repeat (LStep 0 EScan) (S n)))) 0 = Some r /\
+             run_status chain3 r = ExitNormal /\ run_items r = [0; 1; 2]).
+Proof. exact live_shared_reset_refuted_l. Qed.
+Print Assumptions C13_live_shared_reset_refuted.
+
+(* shared step objects without a reset, THREADING: stream 2 yields the result of step 0 although its own events are two loop
+   iterations and NO worker completion (it found the flag stream 1's worker had set); with private copies it yields nothing *)
+Theorem C13_live_shared_flags_refuted :
+  (exists r, nth_error (v_runs (lexec false false (lprepare chain3 None) ops_stale)) 1 = Some r /\
+             run_items r = [0] /\ sevents false (solo 1 0 ops_stale) = [EScan; EScan]) /\
+  (exists r, nth_error (v_runs (lexec true false (lprepare chain3 None) ops_stale)) 1 = Some r /\ run_items r = []).
+Proof. exact live_shared_flags_refuted_l. Qed.
+Print Assumptions C13_live_shared_flags_refuted.
+
+(* non-trivial instance: three streams of one session, interleaved iteration by iteration, one closed midway; each has yielded
+   what it yields alone; and the observation checker accepts exactly the run of the code's model on the seed's history *)
+Example C13_live_example :
+  let ops := [LOpen true None true []; LStep 0 EScan; LStep 0 EScan; LOpen true None false []; LStep 1 EScan; LStep 0 EScan;
+              LOpen true None true []; LStep 2 EScan; LStep 1 (EDone 0 true); LStep 2 EScan; LClose 2; LStep 1 EScan;
+              LStep 2 EScan; LStep 0 EScan; LStep 2 EScan] in
+  map run_items (v_runs (lexec true false (lprepare chain3 None) ops)) = [[0; 1; 2]; [0]; [0]] /\
+  map l_closed (v_runs (lexec true false (lprepare chain3 None) ops)) = [false; false; true] /\
+  chk_live (chain3, [AOpen true true []; ANext 0 (Some 0) 2; ANext 0 (Some 1) 1; AOpen true true []; ANext 1 (Some 0) 2;
+                     ANext 0 (Some 2) 1; ANext 0 None 0; ANext 1 (Some 1) 1; AClose 1]) = true /\
+  chk_live (chain3, [AOpen true true []; ANext 0 (Some 0) 2; ANext 0 (Some 1) 1; AOpen true true []; ANext 1 (Some 0) 2;
+                     AHang 0]) = false /\
+  chk_live_shared true (chain3, [AOpen true true []; ANext 0 (Some 0) 2; ANext 0 (Some 1) 1; AOpen true true [];
+                                 ANext 1 (Some 0) 2; AHang 0]) = true.
+Proof. vm_compute. repeat split. Qed.
